@@ -121,6 +121,24 @@ func Render(x XValue) string {
 	return x.Render()
 }
 
+// writes the canonical text representation of a value. Arrays and objects write their items straight to the buffer,
+// because joining the text of every item, itself joined from the text of its items, copies every item once for every
+// array or object it is nested in.
+func renderTo(b *strings.Builder, x XValue) {
+	if IsNil(x) {
+		return
+	}
+
+	switch typed := x.(type) {
+	case *XArray:
+		typed.renderTo(b)
+	case *XObject:
+		typed.renderTo(b)
+	default:
+		b.WriteString(x.Render())
+	}
+}
+
 // Format returns the pretty text representation
 func Format(env envs.Environment, x XValue) string {
 	if IsNil(x) {
@@ -138,11 +156,11 @@ func String(x XValue) string {
 }
 
 // MaxRenderSize is the size of the biggest value that is converted to text or to JSON, measured as the number of values
-// it is made of, plus the bytes of its texts and property names and the digits of its numbers, plus for each value the
-// number of arrays and objects that it is nested in. An array or object can hold the same value many times over, e.g.
-// array(x, x) where x is itself such an array, so the size of what is written isn't bounded by the size of the expression
-// that built the value, or by the memory that the value takes. Nor is the depth: (x) => array(x) can be applied as many
-// times as anonymous functions can be called, and every level puts together the text of all the levels below it.
+// it is made of, plus the bytes of its texts and property names and the digits of its numbers (and for the pretty text
+// representation the indentation of each). An array or object can hold the same value many times over, e.g. array(x, x)
+// where x is itself such an array, so the size of what is written isn't bounded by the size of the expression that built
+// the value, or by the memory that the value takes. How deep a value is nested does not count: text and JSON are written
+// into one buffer, so a document of a thousand nested arrays is as cheap as a flat one of the same length.
 const MaxRenderSize = 1000000
 
 // CheckRenderSize checks that converting the given value to text (or to JSON, which like comparing it with another value
@@ -174,7 +192,7 @@ func SpendRenderSize(x XValue, asJSON bool, budget *int) bool {
 }
 
 func spendSize(x XValue, asJSON bool, indent int, depth int, budget *int) bool {
-	*budget -= 1 + (1+indent)*depth
+	*budget -= 1 + indent*depth
 
 	if !IsNil(x) {
 		switch typed := x.(type) {
